@@ -178,7 +178,10 @@ def gen_client_plan(rng, prof=None):
     plan = {'client': {'kind': kind, 'request_timeout': rt, 'ops': ops,
                        'handler_actions': actions,
                        'coroutine_handlers': True,
-                       'timestamp_requests': rng.random() < 0.7},
+                       'timestamp_requests': rng.random() < 0.7,
+                       # (asyncio client: how often, in eighths, a WebSocket
+                       # write finds the socket buffer full and suspends)
+                       'slow_ws_write': rng.choice([0, 0, 0, 1, 2, 4])},
             'sserver': script,
             'horizon': t + 2.0,
             'meta': {'I': I, 'T': T, 'first': first, 'span': span}}
